@@ -123,10 +123,10 @@ class StabilizerCompiler(CompilerBase):
                     q_index(op.control, op.control_type),
                     measurement_determinism=self.measurement_determinism,
                 )
-                print(outcome)
                 state.apply_conditioned_gate(
                     q_index(op.target, op.target_type), outcome, gate="x"
                 )
+                classical_registers[op.c_register] = outcome[0]
 
             else:
                 outcome = state.apply_measurement(
@@ -135,8 +135,7 @@ class StabilizerCompiler(CompilerBase):
                 )
                 if outcome == 1:
                     state.apply_sigmax(q_index(op.target, op.target_type))
-
-            classical_registers[op.c_register] = outcome
+                classical_registers[op.c_register] = outcome
 
         elif type(op) is ops.ClassicalCZ:
             # apply an Z gate on the target qubit conditioned on the measurement outcome = 1
@@ -157,8 +156,7 @@ class StabilizerCompiler(CompilerBase):
                 )
                 if outcome == 1:
                     state.apply_sigmaz(q_index(op.target, op.target_type))
-
-            classical_registers[op.c_register] = outcome
+                classical_registers[op.c_register] = outcome
 
         elif type(op) is ops.MeasurementCNOTandReset:
             if isinstance(state, MixedStabilizer):
